@@ -184,6 +184,34 @@ func runC11(c *caseWriter) (string, bool, map[string]int) {
 		}
 		c11URL(c, s)
 	}
+	// (5b) long inputs: bytes a URL parser strips (leading C0 controls and spaces; TAB, LF, CR anywhere) in runs
+	// around the powers of two before, inside and after the scheme (a check that looks at a bounded window of
+	// the input, or that gives up on long input, shows here), and long harmless URLs
+	maxK := 10
+	if tier == "thorough" {
+		maxK = 13
+	}
+	for k := 4; k <= maxK; k++ {
+		for _, e := range []int{-11, -10, -1, 0, 1} {
+			n := (1 << uint(k)) + e
+			if n < 1 {
+				continue
+			}
+			for _, pad := range []string{" ", "\t", "\n", "\r", "\x01", "\x1f", " \t"} {
+				run := strings.Repeat(pad, n)[:n]
+				c11URL(c, run+js+"alert(1)")
+				if pad == "\t" || pad == "\n" || pad == "\r" {
+					c11URL(c, "java"+run+"script:alert(1)")
+					c11URL(c, "javascript"+run+":alert(1)")
+					c11URL(c, "j"+run+"avascript:alert(1)")
+				}
+			}
+			c11URL(c, strings.Repeat("a", n)+js+"alert(1)")
+			c11URL(c, strings.Repeat("a", n)+"/"+js)
+			c11URL(c, "http://h/"+strings.Repeat("a", n))
+			c11URL(c, strings.Repeat("a", n)+":x")
+		}
+	}
 	// (6) malformed UTF-8 around the scheme
 	for _, m := range malformed {
 		for _, v := range []string{m, m + js, js + m, "java" + m + "script:x", "javascript" + m + ":x", "http" + m + "://a", m + "/" + js, "a" + m + "?" + js} {
@@ -194,7 +222,7 @@ func runC11(c *caseWriter) (string, bool, map[string]int) {
 		"selected foldings (extra: foldings) with every byte, every malformed UTF-8 shape and every string of a selected set {U+0130 U+212A U+017F U+0131 Unicode spaces, " +
 		"entity spellings of ':' TAB LF CR SP '/' '?' '#' and of letters, '&', percent-escapes, delimiters} inserted at every position before/inside/after, " +
 		"and (extra: ctx_foldings foldings) in 6-10 prefix contexts and doubled; all strings of <= depth symbols over {a j : / ? # & TAB SP + U+0130 0xFF} alone, after 'javascript' and before 'javascript:'; " +
-		"random scheme-like and path-like strings; every string also goes through isSafeURL (model correspondence). " +
+		"runs of 5..1025 (thorough: 8193) bytes a URL parser strips (leading controls / spaces, TAB LF CR inside the scheme) and long harmless URLs; random scheme-like and path-like strings; every string also goes through isSafeURL (model correspondence). " +
 		"non-trivial = the input was kept (and judged by the WHATWG oracle raw, after the modelled and after Go's character-reference decoding) " +
 		"or was replaced while the oracle sees a javascript scheme", true, map[string]int{"depth": depth, "foldings": nFold, "ctx_foldings": nCtxFold}
 }
